@@ -1,6 +1,6 @@
 """C10 - Delayed reactions deliver their delayed part exactly once, after the delay."""
 import os
-CONTRACT_MODULES = ['types_delays', 'random_', 'simulator_queue', 'simulator_delay', 'simulator_ssa', 'simulator_interfaces']
+CONTRACT_MODULES = ['types_delays', 'random_', 'simulator_queue', 'simulator_delay', 'simulator_delayvolume', 'simulator_volume', 'simulator_ssa', 'simulator_interfaces']
 SPEC_MODULES = ['functions', 'lemmas_queue', 'lemmas_prob', 'lemmas_lattice']
 LEVEL = 'proof'
 ASSUMPTIONS = [
@@ -8,7 +8,7 @@ ASSUMPTIONS = [
     'termination of the gamma rejection loop is not proved',
     'cos is uninterpreted (range [-1,1]); uniform_rv() == 0 excluded',
     'accounting over a whole run (reported state + queued deliveries = every firing) follows from the step clauses and the queue accounting lemmas by induction over iterations (argument, not mechanised)',
-    'DelayVolumeSSASimulator is not under contract (see C07)',
+    'DelayVolumeSSASimulator is under contract too (contracts/simulator_delayvolume.py: the same delivery / firing clauses with the volume clock as a third competitor)',
 ]
 TRUSTED = []
 EXPLANATION = ('Step relation R_delay verified on the real DelaySSASimulator loop body: the queue wins iff its next time precedes the proposed time; a delivery applies the delayed '
